@@ -122,8 +122,9 @@ class C06(Prop):
     assumptions = ["the object skeleton is well typed (string keys, parent pointers mirror containment, path tables/platform sets/payload of the types the API produces); "
                    "only catalogue fields are corrupted",
                    "model covers dump() up to the end of serialize(); text rendering is C01-C04's"]
-    partial = {"C06_errclass_composeinfo_partial": "error class is TypeError/ValueError except where a hand-bound validator body raises another class (F19: composeinfo Variant uid not a str, no parent -> AttributeError)",
-               "C06_errclass_treeinfo_partial": "same; treeinfo Images with a non-string path / non-dict platform table -> AttributeError (F19)"}
+    partial = {"C06_errclass_composeinfo_partial": "the full statement (error class is TypeError or ValueError) is false of the code: a hand-bound validator body can raise another class (F19: composeinfo Variant uid not a str, no parent, no children -> AttributeError); proved with that exception stated",
+               "C06_errclass_images_partial": "same shape; for images no hand-bound body raises outside TypeError/ValueError on the generated domain",
+               "C06_errclass_treeinfo_partial": "same; treeinfo Images with a non-string path / non-dict platform table -> AttributeError (F19); IndexError for a tree without variants (F12). The treeinfo converse is not proved (only composeinfo, images, simple formats, discinfo)"}
 
     def __init__(self):
         self._cache = {}
